@@ -670,6 +670,101 @@ def classify_overwrite(case):
              'overwrite:%s' % case['overwrite']], True)
 
 
+
+# ---------------------------------------------------------------------------------------
+# exhaustive grid: one fixed object of every kind x format x target x extension x flags
+
+GRID_RDMS = {'n_rdm': 2, 'n_cond': 3, 'dis': [[1.0, 2.0, 0.5], [0.25, 4.0, 3.0]], 'special': [[1, 'nan']],
+             'measure': 'crossnobis',
+             'desc': {'noise': {'t': 'mat', 'v': [[2.0, 0.5], [0.5, 1.0]]}, 'subj': {'t': 'str', 'v': 'Ünï'},
+                      'session': {'t': 'int', 'v': 3}, 'flag': {'t': 'none', 'v': None}},
+             'rdm_desc': {'run': {'t': 'int', 'values': [2, 1], 'container': 'array'}},
+             'pat_desc': {'cond': {'t': 'uni', 'values': ['b10', 'bär', 'b9'], 'container': 'list'}}}
+GRID_DATA = {'kind': 'ds', 'oids': [3, 1, 2], 'chids': [2, 1], 'oid_container': 'list',
+             'chid_container': 'array',
+             'obs': {'cond': {'values': ['b', 'a', 'b'], 'container': 'array'},
+                     'sess': {'values': [1, 0, 1], 'container': 'list'}},
+             'ch': {'roi': {'values': ['V1', 'IT'], 'container': 'list'},
+                    'name': {'values': ['ch1', 'ch0'], 'container': 'array'}},
+             'desc': {'subj': 4, 'note': 'pilot'}}
+GRID_DECOR = {'desc': {'noise': {'t': 'mat', 'v': [[1.0, 0.25], [0.25, 2.0]]}, 'extra': {'t': 'float', 'v': 0.5}},
+              'obs': {'lab': {'t': 'uni', 'values': ['π', 'a', 'ß2'], 'container': 'list'}},
+              'ch': {'q': {'t': 'bool', 'values': [True, False], 'container': 'array'}},
+              'special': [[2, 'inf']]}
+GRID_RESULT = {'routine': 'bootstrap_pattern', 'n_cond': 5, 'n_rdm': 3, 'seed': 11, 'method': 'corr',
+               'data': [[((i * 7 + j * 3) % 11 + 1) / 8.0 for j in range(10)] for i in range(3)],
+               'base': [[((i * 5 + j * 2 + (j * j) % 3) % 9 + 1) / 8.0 for j in range(10)] for i in range(3)],
+               'models': ['fixed', 'fixed'], 'names': ['m', 'Modell-Ü', 'x1'],
+               'labels': {'t': 'str', 'values': ['a', 'b10', 'b9', 'c', 'V1'], 'container': 'list'},
+               'N': 4, 'theta': [0.5, 0.25, 1.0]}
+
+
+def _grid_object(kind):
+    import copy
+    if kind == 'rdms':
+        return copy.deepcopy(GRID_RDMS)
+    if kind in ('dataset', 'temporal'):
+        spec = copy.deepcopy(GRID_DATA)
+        ops = [{'op': 'sort_by', 'a': 1, 'b': 0, 'm': 0, 'xs': []}]
+        if kind == 'temporal':
+            spec['kind'] = 'tds'
+            spec['time'] = {'time': {'values': [0.5, 0.0], 'container': 'array'},
+                            'tgrp': {'values': ['p', 'q'], 'container': 'list'}}
+        return {'spec': spec, 'ops': ops, 'decor': copy.deepcopy(GRID_DECOR)}
+    return copy.deepcopy(GRID_RESULT)
+
+
+def enumerate_grid(tier, seed):
+    for kind in ('rdms', 'dataset', 'temporal', 'result'):
+        for fmt in ('hdf5', 'pkl'):
+            for ext in FMT_EXT[fmt]:
+                for target in ('path', 'bytesio', 'file'):
+                    for explicit in (False, True):
+                        if target != 'path' and not explicit:
+                            continue
+                        for ow in (False, True):
+                            yield {'sub': 'roundtrip', 'kind': kind, 'obj': _grid_object(kind),
+                                   'io': {'fmt': fmt, 'target': target, 'ext': ext,
+                                          'explicit_type': explicit, 'overwrite': ow}}
+                for target in ('path', 'file'):
+                    for ow in (False, True):
+                        new = _grid_object(kind)
+                        old = _grid_object(kind)
+                        # make the old object larger and differently keyed
+                        if kind == 'rdms':
+                            old['desc']['old_only'] = {'t': 'int', 'v': 1}
+                            old['pat_desc']['old_p'] = {'t': 'int', 'values': [1, 2, 3], 'container': 'list'}
+                        elif kind == 'result':
+                            old['models'] = ['fixed', 'fixed', 'fixed']
+                            old['routine'] = 'fixed'
+                        else:
+                            old['decor']['desc']['old_only'] = {'t': 'int', 'v': 1}
+                            old['decor']['obs']['old_o'] = {'t': 'int', 'values': [1, 2, 3], 'container': 'list'}
+                        yield {'sub': 'overwrite', 'kind': 'dataset' if kind == 'temporal' else kind,
+                               'fmt': fmt, 'ext': ext, 'target': target, 'overwrite': ow,
+                               'old': old, 'new': new}
+
+
+def check_grid(case):
+    if case['sub'] == 'overwrite':
+        return check_overwrite(case)
+    kind = case['kind']
+    if kind == 'rdms':
+        return check_rdms({'spec': case['obj'], 'ops': [{'op': 'sort_by', 'a': 0, 'm': 0, 'xs': []}],
+                           'io': case['io']})
+    if kind in ('dataset', 'temporal'):
+        return check_dataset(dict(case['obj'], io=case['io']))
+    return check_result(dict(case['obj'], io=case['io']))
+
+
+def classify_grid(case):
+    if case['sub'] == 'overwrite':
+        return (['grid:overwrite', 'kind:' + case['kind'], 'fmt:' + case['fmt'],
+                 'target:' + case['target']], True)
+    return (['grid:roundtrip', 'kind:' + case['kind'], 'fmt:' + case['io']['fmt'],
+             'target:' + case['io']['target']], True)
+
+
 SUBCHECKS = [
     SubCheck('rdms', rdms_case(), check_rdms, classify_rdms, quick=400,
              doc='RDMs after a short structural history: save/load in both formats to path / BytesIO / '
@@ -683,4 +778,9 @@ SUBCHECKS = [
     SubCheck('overwrite', overwrite_case(), check_overwrite, classify_overwrite, quick=200,
              doc='existing target x overwrite flag: ValueError + unchanged bytes for HDF5 paths, '
                  'exactly the new object after overwrite=True (path or open file, both formats)'),
+    core.Enumeration('grid', enumerate_grid, check_grid, classify_grid,
+                     doc='exhaustive: one fixed object of each of the four kinds (RDMs, Dataset, '
+                         'TemporalDataset, Result) x file type x extension x target (path, BytesIO, open '
+                         'file) x explicit/inferred type x overwrite flag, and existing target x '
+                         'overwrite on/off', tiers=('quick', 'thorough')),
 ]
